@@ -71,7 +71,10 @@ def _case(draw):
         names = [g["name"] for g in spec["glyphs"]]
         skippable = [n for n in names if n not in c05.ALTS and n not in c05.ALTS.values()]
         if not skippable:
-            skippable = names[:1]
+            # every glyph is named by the generated feature text: add one that is not (skipping a glyph the features name is a user error)
+            spec["glyphs"].append({"name": "zz.extra", "width": 500, "unicodes": [], "contours": [[[0, 0, "line"], [50, 0, "line"], [25, 40, "line"]]]})
+            names.append("zz.extra")
+            skippable = ["zz.extra"]
         ingroups = [m for ms in spec["groups"].values() for m in ms if m in skippable]
         skip = draw(st.lists(st.sampled_from(ingroups * 2 + skippable), min_size=1, max_size=3, unique=True))
         marks = [g for g in spec["glyphs"] if g["name"] in c05.MARKS]
@@ -294,7 +297,16 @@ def run_static_layout(case, ctx):
         sub = reload(ufo2ft.compileTTF(S.build(sp, module), useProductionNames=False, **kw))
     common_absence(full, sub, skip)
     rest = [n for n in names if n not in skip]
-    tags = (set(otl.script_tags(full)) & set(otl.script_tags(sub))) | {"DFLT"}
+    def kerned(t, tag):
+        return any(ft in ("kern", "dist") for ft, _ in otl.langsys_features(t, "GPOS", tag)) if tag in otl.script_tags(t) else False
+
+    # KF-C13-1: the kern writer registers a script for kerning only when some kerning entry names a glyph of that script alone; skipping the last such
+    # glyph takes the whole script out of the kerning data, and with it the kerning of neutral glyphs in runs of that script. Scripts whose registration
+    # differs between the two compiles are the finding's input class (not compared, counted)
+    both = set(otl.script_tags(full)) & set(otl.script_tags(sub))
+    tags = {tg for tg in both if kerned(full, tg) == kerned(sub, tg) or case.get("no_exclusions")} | {"DFLT"}
+    if len(tags) < len(both | {"DFLT"}):
+        ctx.label("known-finding-class(KF-C13-1)")
     sc, bd = c05.scripts_of(spec)
 
     def neutral(g):
